@@ -53,6 +53,16 @@ def run(ck):
         jobs.append({"id": 900000 + i, "tree": tree, "op": {"k": "resolve", "path": H(p)}, "snap": "all", "meta": {"path": p}})
         jobs.append({"id": 900100 + i, "tree": tree, "op": {"k": "mkdir_all", "path": H(p), "mode": 0o755}, "snap": "all", "meta": {"path": p}})
         jobs.append({"id": 900200 + i, "tree": tree, "op": {"k": "open", "path": H(p), "flags": O["PATH"]}, "snap": "all", "meta": {"path": p}})
+    # the link budgets' boundaries: chains of exactly k links around 40 and around the library's own constant, under every kind of operation
+    for i, (btree, bp, n) in enumerate(gen.link_budget_cases()):
+        base_id = 950000 + i * 10
+        jobs.append({"id": base_id, "tree": btree, "op": {"k": "resolve", "path": H(bp)}, "meta": {"path": bp}})
+        jobs.append({"id": base_id + 1, "tree": btree, "op": {"k": "open", "path": H(bp), "flags": O["PATH"]}, "meta": {"path": bp}})
+        if "/" not in bp:
+            jobs.append({"id": base_id + 2, "tree": btree, "op": {"k": "mkdir_all", "path": H(bp + "/n1/n2"), "mode": 0o755}, "meta": {"path": bp}})
+            jobs.append({"id": base_id + 3, "tree": btree, "op": {"k": "create", "path": H(bp + "/newf"), "type": "file", "mode": 0o644}, "meta": {"path": bp}})
+            jobs.append({"id": base_id + 4, "tree": btree, "op": {"k": "remove_file", "path": H(bp + "/f")}, "meta": {"path": bp}})
+            jobs.append({"id": base_id + 5, "tree": btree, "op": {"k": "readlink", "path": H(bp)}, "meta": {"path": bp}})
     for j in jobs:
         j["trace"] = False
         j.setdefault("snap", "all")
@@ -65,48 +75,74 @@ def run(ck):
     stats = {"pairs": 0, "kinds": {}, "outcomes": {}, "too_many_links": 0}
     nontrivial = set()
     samples = []
-    for jid, job in byid.items():
-        a, b_ = res["none"].get(jid), res["openat2"].get(jid)
-        if not a or not b_ or "setup_err" in a.get("res", {}) or "setup_err" in b_.get("res", {}):
-            continue
-        op = job["op"]
-        fl = op.get("flags", 0) if op["k"] in ("open",) else 0
-        # the property quantifies over flag sets openat2 accepts and at most 40 link traversals
-        nlinks = sum(1 for o in job.get("tree", []) if o[0] == "symlink")
-        ca, cb_ = canon(a, job), canon(b_, job)
-        stats["pairs"] += 1
-        stats["kinds"][op["k"]] = stats["kinds"].get(op["k"], 0) + 1
-        stats["outcomes"][str(ca[:2] if ca[0] != "err" else ca)] = stats["outcomes"].get(str(ca[:2] if ca[0] != "err" else ca), 0) + 1
-        desc = {"job": J.describe(job), "with_openat2": ca, "emulated": cb_}
-        if "panic" in a.get("res", {}) or "panic" in b_.get("res", {}):
-            ck.violation("C04: an operation panicked", desc)
-            continue
-        differ = ca != cb_
-        if any(b"\0" in unhex(op[k]) for k in ("path", "src", "dst") if k in op):
-            # a path with an embedded NUL has no kernel meaning (C01 quantifies over NUL-free strings): the one thing
-            # required of both backends is that they refuse it instead of silently cutting it short
-            if ca[0] != "err" or cb_[0] != "err":
-                ck.violation("C04: a path with an embedded NUL byte was not refused (truncated at the NUL?)", desc)
-            stats["nul_paths"] = stats.get("nul_paths", 0) + 1
-            continue
-        tree_differ = snap_canon(a.get("snap_after")) != snap_canon(b_.get("snap_after"))
-        if (differ or tree_differ) and nlinks >= 40 and (ca == ("err", "OsError", 40) or cb_ == ("err", "OsError", 40)):
-            stats["too_many_links"] += 1        # outside the property's quantification (more than 40 traversals)
-            continue
-        if differ and ca[0] == "ok" and cb_[0] == "ok" and ca[1] == cb_[1] == H("root") and ca[3] == cb_[3] \
-                and (ca[2] ^ cb_[2]) == O["DIRECTORY"] and op["k"] == "resolve":
-            kf = [f for f in ck.known if f["id"] == "F-N-rootdup-odirectory"]
-            if kf:
-                ck.known_finding(kf[0]["id"], kf[0]["what"])
-                continue
-        if differ:
-            ck.violation("C04: the two resolver backends give different outcomes for the same operation", desc)
-        elif tree_differ:
-            ck.violation("C04: the two resolver backends leave different trees behind", dict(desc, tree_openat2=snap_canon(a.get("snap_after")),
-                                                                                           tree_emulated=snap_canon(b_.get("snap_after"))))
-        nontrivial.add((op["k"], str(ca)[:60], job.get("meta", {}).get("path", "")))
-        if len(samples) < 6 and ca[0] == "err" and op["k"] in ("mkdir_all", "rename", "create"):
-            samples.append(desc)
+    suspects = []
+    confirmed_pass = [False]
+
+    def report(what, desc, jid):
+        # A disagreement seen while 16 driver processes (and whatever else runs on the machine) were busy is re-run alone before it
+        # is reported: under concurrent renames the kernel's own walk answers EAGAIN -- and, having started over after a failed
+        # RCU walk with its link counter not reset, ELOOP -- for lookups it resolves when asked again.  A real difference persists.
+        if confirmed_pass[0]:
+            ck.violation(what, desc)
+        else:
+            suspects.append(jid)
+
+    def judge_all(ids):
+      for jid in ids:
+          job = byid[jid]
+          a, b_ = res["none"].get(jid), res["openat2"].get(jid)
+          if not a or not b_ or "setup_err" in a.get("res", {}) or "setup_err" in b_.get("res", {}):
+              continue
+          op = job["op"]
+          fl = op.get("flags", 0) if op["k"] in ("open",) else 0
+          # the property quantifies over flag sets openat2 accepts and at most 40 link traversals
+          nlinks = sum(1 for o in job.get("tree", []) if o[0] == "symlink")
+          ca, cb_ = canon(a, job), canon(b_, job)
+          stats["pairs"] += 1
+          stats["kinds"][op["k"]] = stats["kinds"].get(op["k"], 0) + 1
+          stats["outcomes"][str(ca[:2] if ca[0] != "err" else ca)] = stats["outcomes"].get(str(ca[:2] if ca[0] != "err" else ca), 0) + 1
+          desc = {"job": J.describe(job), "with_openat2": ca, "emulated": cb_}
+          if "panic" in a.get("res", {}) or "panic" in b_.get("res", {}):
+              ck.violation("C04: an operation panicked", desc)
+              continue
+          differ = ca != cb_
+          if any(b"\0" in unhex(op[k]) for k in ("path", "src", "dst") if k in op):
+              # a path with an embedded NUL has no kernel meaning (C01 quantifies over NUL-free strings): the one thing
+              # required of both backends is that they refuse it instead of silently cutting it short
+              if ca[0] != "err" or cb_[0] != "err":
+                  ck.violation("C04: a path with an embedded NUL byte was not refused (truncated at the NUL?)", desc)
+              stats["nul_paths"] = stats.get("nul_paths", 0) + 1
+              continue
+          tree_differ = snap_canon(a.get("snap_after")) != snap_canon(b_.get("snap_after"))
+          # (more than 40 traversals need at least 41 links in the tree: generated paths never walk the same link twice that often)
+          if (differ or tree_differ) and nlinks >= 41 and (ca == ("err", "OsError", 40) or cb_ == ("err", "OsError", 40)):
+              stats["too_many_links"] += 1        # outside the property's quantification (more than 40 traversals)
+              continue
+          if differ and ca[0] == "ok" and cb_[0] == "ok" and ca[1] == cb_[1] == H("root") and ca[3] == cb_[3] \
+                  and (ca[2] ^ cb_[2]) == O["DIRECTORY"] and op["k"] == "resolve":
+              kf = [f for f in ck.known if f["id"] == "F-N-rootdup-odirectory"]
+              if kf:
+                  ck.known_finding(kf[0]["id"], kf[0]["what"])
+                  continue
+          if differ:
+              report("C04: the two resolver backends give different outcomes for the same operation", desc, jid)
+          elif tree_differ:
+              report("C04: the two resolver backends leave different trees behind", dict(desc, tree_openat2=snap_canon(a.get("snap_after")),
+                                                                                             tree_emulated=snap_canon(b_.get("snap_after"))), jid)
+          nontrivial.add((op["k"], str(ca)[:60], job.get("meta", {}).get("path", "")))
+          if len(samples) < 6 and ca[0] == "err" and op["k"] in ("mkdir_all", "rename", "create"):
+              samples.append(desc)
+    judge_all(list(byid))
+    if suspects:
+        stats["rerun_alone"] = len(suspects)
+        again = [byid[j] for j in suspects]
+        for deny in ((), ("openat2",)):
+            tag = ",".join(deny) or "none"
+            _, results, errs = run_driver_parallel(again, deny=deny, tag="c04r" + tag, shards=1)
+            res[tag].update(results)
+        confirmed_pass[0] = True
+        stats["pairs"] -= len(suspects)
+        judge_all(list(suspects))
     cov = {
         "evaluations": stats["pairs"],
         "distinct_nontrivial": len(nontrivial),
@@ -115,7 +151,7 @@ def run(ck):
                 "'..', trailing '/'; each job run with and without openat2; distinct by (op, outcome, path)",
         "samples": samples or [{"note": "none"}],
         "pairs_compared": stats["pairs"], "op_histogram": stats["kinds"], "outcome_histogram": stats["outcomes"],
-        "skipped_more_than_40_links": stats["too_many_links"], "nul_paths_refused_by_both": stats.get("nul_paths", 0),
+        "disagreements_rerun_alone": stats.get("rerun_alone", 0), "skipped_more_than_40_links": stats["too_many_links"], "nul_paths_refused_by_both": stats.get("nul_paths", 0),
         "programs": stats["pairs"], "disagreements_checked": 0,
     }
     assumptions = ["walks needing more than 40 link traversals are outside the property's quantification (they are C01's known finding F-H)",
